@@ -34,6 +34,21 @@ func fnPkgPath(fn *ssa.Function) string {
 	return ""
 }
 
+// lookupContractFrom first honours a package-local abstraction: an extern contract for the callee (by full
+// name) declared in the CALLER's package takes precedence over the callee's own contract.  It is an
+// assumed contract (listed as trusted) that lets a package reason about a foreign function through
+// its own spec functions.
+func (env *Env) lookupContractFrom(fn *ssa.Function, callerPkg string) (*Contract, *SpecFile) {
+	if callerPkg != "" && callerPkg != fnPkgPath(fn) {
+		if sf, ok := env.Specs[callerPkg]; ok {
+			if c, ok := sf.Contracts[fn.String()]; ok && c.Extern {
+				return c, sf
+			}
+		}
+	}
+	return env.lookupContract(fn)
+}
+
 func (env *Env) lookupContract(fn *ssa.Function) (*Contract, *SpecFile) {
 	pp := fnPkgPath(fn)
 	if sf, ok := env.Specs[pp]; ok {
@@ -168,7 +183,7 @@ func (g *FuncGen) execCall(instr ssa.Instruction, c *ssa.CallCommon, v ssa.Value
 		g.defaultCall("func-value", true, argVals, args, sig, v, pos, nil)
 		return
 	}
-	ct, sf := g.env.lookupContract(callee)
+	ct, sf := g.env.lookupContractFrom(callee, fnPkgPath(g.fn))
 	if ct != nil {
 		var names []string
 		var ptypes []types.Type
@@ -205,9 +220,10 @@ func (g *FuncGen) argTerm(a ssa.Value) string {
 		switch ad.kind {
 		case aRefStruct, aArr, aHeapCell:
 			return ad.ref
-		case aCell, aGlobal:
-			// address of (part of) a local variable passed to a callee: copy-in / copy-out through a
-			// fresh heap object (sound when the callee does not retain the pointer)
+		case aCell, aGlobal, aElem, aHeapField:
+			// address of (part of) a local variable, of a slice element or of a scalar field passed to a
+			// callee: copy-in / copy-out through a fresh heap object (sound when the callee does not retain
+			// the pointer and has no other access path to the same location)
 			pt := deref(a.Type())
 			if pt != nil && g.copyOut != nil {
 				if _, isArr := pt.Underlying().(*types.Array); !isArr {
@@ -851,8 +867,25 @@ func (g *FuncGen) execGhost(at string, cx *SpecCtx) {
 		}
 		if ix, ok := gs.Target.(*EIndex); ok {
 			bv, ok := ix.I.(*EIdent)
-			if !ok {
-				cx.fail("ghost map assignment needs a bound variable index: %s", gs.Src)
+			isPoint := !ok
+			if ok && strings.HasPrefix(at, "loop") {
+				// inside a loop an identifier that names a program variable denotes a point update
+				if len(g.cellName[bv.Name]) > 0 {
+					isPoint = true
+				}
+			}
+			if isPoint {
+				// point update of a ghost map: m[idx] := value
+				locs := cx.locations(ix.X)
+				if len(locs) != 1 {
+					cx.fail("ghost target must be a single location: %s", gs.Src)
+				}
+				loc := locs[0]
+				idx := cx.intTerm(ix.I)
+				v := cx.eval(gs.Value)
+				cur := g.get(g.st, loc.comp)
+				g.update(loc.comp, fmt.Sprintf("(store %s %s (store (select %s %s) %s %s))", cur, loc.ref, cur, loc.ref, idx, v.t))
+				continue
 			}
 			locs := cx.locations(ix.X)
 			if len(locs) != 1 {
